@@ -30,7 +30,7 @@ CLAIMED = {
          'Decides the escape/un-escape agreement and the listed pairing rules; does not decide byte-for-byte canonicity under all options, Grisu3/from_chars or the pretty-printer column arithmetic.',
          'DESIGN.md §4 C01'),
  'C05': ('per-site safety obligations: bounded snprintf lengths (static bound or dominating upper-bound test), regex construction inside converting try/catch, clamped slice steps, value-set analysis of every __builtin_unreachable, margin typestate (must-dataflow) for cursor dereferences in the character scanners and for the state stacks of the expression compilers',
-         'Static per-site obligations over all of include/: every snprintf length is bounded by its buffer, every std::regex built from run-time text is inside a try that converts, every run-time-step slice loop clamps the step, and every __builtin_unreachable is unreachable for every value its discriminant can take (label completeness over the enum, callee return-value enumeration, assigned-value sets, or a table entry whose supporting facts are re-checked); every cursor dereference in the JSON/CSV/JSONPath/JMESPath/JSON Pointer scanners is dominated by an end-pointer comparison that still covers it, and every back()/pop_back() of the JSONPath/JMESPath state stacks by a non-emptiness fact. Quantifies over code sites and paths, not inputs. Also: input-derived element indices are bounds-checked exactly (R05.8).',
+         'Static per-site obligations over all of include/: every snprintf length is bounded by its buffer, every std::regex built from run-time text is inside a try that converts, every run-time-step slice loop clamps the step, and every __builtin_unreachable is unreachable for every value its discriminant can take (label completeness over the enum, callee return-value enumeration, assigned-value sets, or a table entry whose supporting facts are re-checked); every cursor dereference in the JSON/CSV/JSONPath/JMESPath/JSON Pointer scanners is dominated by an end-pointer comparison that still covers it, and every back()/pop_back() of the JSONPath/JMESPath state stacks by a non-emptiness fact. Quantifies over code sites and paths, not inputs. Also: input-derived element indices are bounds-checked exactly (R05.8). CSV column cache indexed only for existing columns (R05.9).',
          'Decides the listed obligations; does not decide termination, absence of all undefined behaviour or assertion freedom.',
          'DESIGN.md §4 C05'),
  'C06': ('boundary-partition partial evaluation of encoder width ladders; decoding of the written header with the specification tables used for the decoders',
@@ -54,7 +54,7 @@ CLAIMED = {
          'Decides the undo-log structure; does not decide that each inverse restores the exact prior state for all documents, nor the from_diff law. Known finding F28 (undo entries recorded after the mutation by an allocating call) is reported as KNOWN-FINDING.',
          'DESIGN.md §4 C15'),
  'C16': ('dominance facts over the CFG of the merge-patch recursion',
-         'Static dominance facts of RFC 7386: insertions are control-dependent on a non-null patch member, an existing member is erased unconditionally in the found branch, a non-object patch is returned and a non-object target is reset before the loop, and the inserted value is the recursive merge of the old value (or an empty object). Necessary conditions of the algorithm on every path of the 40-line recursion. Also from_diff: the three emissions sit under exactly their conditions and are must-pass (R16.5).',
+         'Static dominance facts of RFC 7386: insertions are control-dependent on a non-null patch member, an existing member is erased unconditionally in the found branch, a non-object patch is returned and a non-object target is reset before the loop, and the inserted value is the recursive merge of the old value (or an empty object). Necessary conditions of the algorithm on every path of the 40-line recursion. Also from_diff: the three emissions sit under exactly their conditions and are must-pass (R16.5). R16.4 by reaching definitions.',
          'Decides the listed dominance facts; does not decide equality with the RFC algorithm for all inputs nor the from_diff law.',
          'DESIGN.md §4 C16'),
  'C18': ('set comparison of the encoder quote-trigger set with the parser special-character set; partial evaluation of the quote escape writers (CSV and TOON, all 256 characters) against the readers un-escape tables; dominance in the parser escaped_value state',
@@ -66,15 +66,15 @@ CLAIMED = {
          'Decides the listed error-discipline and arity clauses; does not decide inverse-ness or route equality of values.',
          'DESIGN.md §4 C17'),
  'C12': ('pairing rule over selector call sites (path node generated from the index/name that fetches the value); call-graph identity of json_query with compile+evaluate; clamped slice steps',
-         'Static pairing rule: at every tail_select/evaluate_tail call of every selector the path node is generated from the same index or name that fetches the child passed with it; json_query/json_replace go through make_expression + evaluate; slice loops clamp the step. Necessary conditions of "each returned path addresses the value returned with it" and of compiled/one-shot agreement, at all selector sites. Also: the slice step clamp preserves the selection (linear forms over interval boxes, R12.3), json_replace overloads agree on their result options (R12.4), the slice accumulator is reset after use (R12.5), cursor-bounds and state-stack typestates of the compiler (R05.6/R05.7). Filter operator table: operator, operand order, type guards and precedence order of the comparison/arithmetic classes (R12.6).',
+         'Static pairing rule: at every tail_select/evaluate_tail call of every selector the path node is generated from the same index or name that fetches the child passed with it; json_query/json_replace go through make_expression + evaluate; slice loops clamp the step. Necessary conditions of "each returned path addresses the value returned with it" and of compiled/one-shot agreement, at all selector sites. Also: the slice step clamp preserves the selection (linear forms over interval boxes, R12.3), json_replace overloads agree on their result options (R12.4), the slice accumulator is reset after use (R12.5), cursor-bounds and state-stack typestates of the compiler (R05.6/R05.7). Filter operator table: operator, operand order, type guards and precedence order of the comparison/arithmetic classes (R12.6). Selector ids are consumed (R12.7); slice bound functions agree with their JMESPath siblings (R12.8).',
          'Decides the listed structural clauses; does not decide that the selected node list is the one the selector semantics define.',
          'DESIGN.md §4 C12'),
  'C13': ('registry table extraction (name -> object -> class -> arity) compared with the specification table; argument typestate over the CFG; dominance of the step-zero test; type-level const facts from Sema',
-         'Static table agreement and typestate: the 26 built-in names, their classes and arities equal the JMESPath table; args[k] is read only below the declared arity and after the arity test, value()/expression() only under the matching kind test; step 0 is rejected before the slice loops; every entry point takes const Json& and every evaluate returns const Json&. Also: comparator classes apply the operator they are registered for under the number guard (R13.6), slice clamp (R12.3), slice accumulator reset (R12.5), cursor-bounds and state-stack typestates of the compiler (R05.6/R05.7).',
+         'Static table agreement and typestate: the 26 built-in names, their classes and arities equal the JMESPath table; args[k] is read only below the declared arity and after the arity test, value()/expression() only under the matching kind test; step 0 is rejected before the slice loops; every entry point takes const Json& and every evaluate returns const Json&. Also: comparator classes apply the operator they are registered for under the number guard (R13.6), slice clamp (R12.3), slice accumulator reset (R12.5), cursor-bounds and state-stack typestates of the compiler (R05.6/R05.7). Operator table (R13.7), extremum siblings (R13.9), slice bound siblings (R12.8).',
          'Decides the listed structural clauses; does not decide the values returned (projection scoping, truthiness, function results).',
          'DESIGN.md §4 C13'),
  'C04': ('dominance rules with exact constants for every digit-accumulation (MAX/base, MAX-digit, digits10-bounded loops), sign-limit constants of the signed wrappers, control dependence of integer/bignum events on the conversion result',
-         'Static guard rules: in all instantiations of the integer readers every accumulator multiplication and addition is dominated by the exact overflow test for the accumulator type (or a digits10-bounded loop), the signed wrappers compare with exactly 2^(w-1) and MAX, and the JSON parser emits an integer event only under a successful conversion, a bigint/bigdec string exactly under the lossless options. Constants are folded by clang for each type, so an off-by-one in any guard is a violation. Also: every wrapping word addition/subtraction of the bigint add/subtract loops feeds the carry/borrow (R04.4).',
+         'Static guard rules: in all instantiations of the integer readers every accumulator multiplication and addition is dominated by the exact overflow test for the accumulator type (or a digits10-bounded loop), the signed wrappers compare with exactly 2^(w-1) and MAX, and the JSON parser emits an integer event only under a successful conversion, a bigint/bigdec string exactly under the lossless options. Constants are folded by clang for each type, so an off-by-one in any guard is a violation. Also: every wrapping word addition/subtraction of the bigint add/subtract loops feeds the carry/borrow (R04.4). Bigint storage views are refreshed after every resize before being read (R04.5).',
          'Decides the overflow-guard and event-kind clauses; does not decide correct rounding of from_chars/strtod, Grisu3 or bigint arithmetic (numerical; no sound static argument in reach here).',
          'DESIGN.md §4 C04'),
  'C08': ('must-pass-through (end_value on every non-error path of every value writer), exact two-sided count comparison at container close, nesting guards and ladder rules shared with C10/C06',
@@ -82,7 +82,7 @@ CLAIMED = {
          'Decides the count-bookkeeping clauses; does not decide that the bytes denote exactly the pushed data in general.',
          'DESIGN.md §4 C08'),
  'C11': ('set comparison of the per-dialect keyword registries with the draft vocabularies; name binding keyword -> factory method -> validator class; use of reporter.error results over the CFG',
-         'Static registry/binding rules: each of the five dialect factories looks up every verdict-affecting keyword of its draft, every registered keyword is bound to the factory method and validator class of the same name, is_valid and validate evaluate the same tree, and every reporter.error() result is returned or tested against abort. Only structural necessary conditions of correct verdicts. Also: annotations of a sub-schema that reported into a local error collector are merged only under a test of that collector (R11.5) and handed back to the caller by the caller\'s flags (R11.6).',
+         'Static registry/binding rules: each of the five dialect factories looks up every verdict-affecting keyword of its draft, every registered keyword is bound to the factory method and validator class of the same name, is_valid and validate evaluate the same tree, and every reporter.error() result is returned or tested against abort. Only structural necessary conditions of correct verdicts. Also: annotations of a sub-schema that reported into a local error collector are merged only under a test of that collector (R11.5) and handed back to the caller by the caller\'s flags (R11.6). Dialect dispatch agreement (R11.7); contains bounds always assigned (R11.8).',
          'Decides registry completeness, wiring and abort propagation; does not decide the verdicts themselves.',
          'DESIGN.md §4 C11'),
 }
